@@ -577,14 +577,20 @@ def issorted(table, key=None, reverse=False, strict=False):
     except StopIteration:
         flds = []
     if key is None:
-        prev = next(it)
+        try:
+            prev = next(it)
+        except StopIteration:
+            return True  # no data rows
         for curr in it:
             if not op(Comparable(curr), Comparable(prev)):
                 return False
             prev = curr
     else:
         getkey = comparable_itemgetter(*asindices(flds, key))
-        prev = next(it)
+        try:
+            prev = next(it)
+        except StopIteration:
+            return True  # no data rows
         prevkey = getkey(prev)
         for curr in it:
             currkey = getkey(curr)
